@@ -468,6 +468,21 @@ def natives():
     return spec
 
 
+def named1x1():
+    """A defined name written as a range of exactly one cell, evaluated by
+    its name as well as through formulas."""
+    A1, A2, B1, B2, B3 = (S + x for x in ('A1', 'A2', 'B1', 'B2', 'B3'))
+    spec = ModelSpec(
+        'named1x1',
+        {A1: 5, A2: 7, B1: '=SUM(one)+A2', B2: '=ISNUMBER(one)',
+         B3: '=COUNTA(one)+B1'},
+        [A2], [0, 5], {}, names={'one': A1},
+        eval_cells=[B1, B2, B3, 'one'])
+    spec.range_names = ('one',)
+    spec.differential = True
+    return spec
+
+
 def wholerow():
     """A whole-row reference: the row has 16 384 members, whichever of them
     are stored when the model is compiled (D1 is not, until it is set)."""
@@ -487,7 +502,7 @@ ALL = [chain, diamond, sumrange, formularange, crosssheet, textmodel, named,
        branch, lookup, errrange, typed, guarded, named_extracted, othersheet,
        logic, numtext]
 ALL_C05 = ALL + [twodim, longrange, criteria, overflow, raising, spill,
-                 ordering, xirr, natives]
+                 ordering, xirr, natives, named1x1]
 
 
 def by_name(name):
@@ -531,8 +546,11 @@ def xlsx_path(spec, cells=None):
         sh, coord = addr.split('!')
         col = ''.join(c for c in coord if c.isalpha())
         row = ''.join(c for c in coord if c.isdigit())
-        wb.defined_names[name] = DefinedName(
-            name, attr_text='%s!$%s$%s' % (sh, col, row))
+        target = '%s!$%s$%s' % (sh, col, row)
+        if name in getattr(spec, 'range_names', ()):
+            # written as a range of one cell
+            target += ':$%s$%s' % (col, row)
+        wb.defined_names[name] = DefinedName(name, attr_text=target)
     path = os.path.join(_tmpdir(), '%s_%d.xlsx' % (spec.name,
                                                    len(_XLSX_CACHE)))
     wb.save(path)
